@@ -103,17 +103,22 @@ def main():
     elif call in ("encode_bitpacked", "encode_rle_bp"):
         vals = np.array(w["values"], dtype="uint32").view("int32")
         oarr, o, ob = outbuf()
+        st0 = a.get("start", 0)
+        if st0:
+            o.seek(ob + st0)
         if call == "encode_bitpacked":
             c.encode_bitpacked(vals, a["width"], o)
         else:
             c.encode_rle_bp(vals, a["width"], o, a["with_length"])
         bs = bytes(oarr[ob:])
         n, width = len(vals), a["width"]
-        off = 0
+        off = st0
+        for j in range(st0):
+            actual["out_byte[%d] (before the cursor)" % j] = bs[j]
         if a.get("with_length"):
             for j in range(4):
-                actual["length_prefix[%d]" % j] = bs[j]
-            off = 4
+                actual["length_prefix[%d]" % j] = bs[st0 + j]
+            off = st0 + 4
         hb = []
         h = (((n + 7) // 8) << 1) | 1
         while True:
